@@ -282,7 +282,7 @@ def _worker(obs, tq, rq):
     except Exception:
         pass
     import sys
-    sys.setrecursionlimit(20000)
+    sys.setrecursionlimit(400000)
     while True:
         item = tq.get()
         if item is None:
